@@ -22,6 +22,7 @@ const (
 	KFn
 	KAny
 	KNamed
+	KNever // internal: type of diverging expressions/blocks (reftype, C03)
 )
 
 type Field struct {
@@ -36,6 +37,9 @@ type Type struct {
 	Params []Field // fn
 	Ret    *Type   // fn
 	Name   string  // named type
+	// Singles is the number of leading parameters of a fn type that are singleton
+	// extractions (not supplied by callers); only produced by reftype (C03).
+	Singles int
 }
 
 var (
@@ -47,6 +51,7 @@ var (
 	TRange = &Type{K: KRange}
 	TAny   = &Type{K: KAny}
 	TAnyObj = &Type{K: KAnyObj}
+	TNever  = &Type{K: KNever}
 )
 
 func TList(e *Type) *Type        { return &Type{K: KList, Elem: e} }
@@ -73,6 +78,8 @@ func (t *Type) String() string {
 		return "any"
 	case KAnyObj:
 		return "{ ? }"
+	case KNever:
+		return "never"
 	case KList:
 		return "[" + t.Elem.String() + "]"
 	case KOpt:
@@ -303,6 +310,14 @@ type SingletonDecl struct {
 	T    *Type
 }
 
+// ImplBlock is `impl Template [with { caps }] for $Singleton { methods }` (C03).
+type ImplBlock struct {
+	Template  string
+	Caps      []string // nil: no `with` clause
+	Singleton string   // without '$'
+	Methods   []*Func
+}
+
 type Program struct {
 	Imports    []Import
 	Singletons []SingletonDecl
@@ -310,6 +325,7 @@ type Program struct {
 	Globals    []*Let
 	Funcs      []*Func
 	RawItems   []string // verbatim items printed after the singletons (impl blocks ...)
+	Impls      []*ImplBlock // printed after the raw items (C03)
 }
 
 // ---------------------------------------------------------------- builders
